@@ -56,6 +56,8 @@ def plan(tier, seed):
                         jobs.append(j)
     jobs.append(ch("C15", "vf/pyshim/h_mapzip.py", "h_map_zip", t, ["core.read_row_group_arrays", "schema._is_map_like",
                                                                   "schema.SchemaHelper"]))
+    from . import pageloop
+    jobs += [j for j in pageloop.page_jobs("C15", tier) if "h_page_v1[" in j["name"]]
     jobs.append(ch("C15", "vf/pyshim/h_page.py", "h_page_v1_nested", t, ["core.read_data_page", "core.read_rep",
                                                                         "core.read_def"]))
     for h in ("h_levels", "h_levels_two_columns", "h_list_shape", "h_list_shape_types", "h_map_shape"):
